@@ -150,11 +150,11 @@ const (
 	LNetLat
 	LNetShort
 	LNetCfg
-	LScen   // scenario-level configuration draws
-	LFault  // fault decisions
-	LData   // payload/content draws
-	LIO     // stream source/sink behaviour
-	LOp     // operation selection
+	LScen  // scenario-level configuration draws
+	LFault // fault decisions
+	LData  // payload/content draws
+	LIO    // stream source/sink behaviour
+	LOp    // operation selection
 	LEntropy
 )
 
